@@ -2,7 +2,7 @@
 
 Token-level mutation (delete / duplicate / swap / perturb a number, a name, a star, a bracket or a notation
 keyword) of generated and example .comp/.sys programs.  Oracle (decides violations): whenever the real compiler
-produces output, the emitted specification must be well formed (harness/wellformed.py: every structure balanced
+produces output, the emitted specification (.pil, and the .des of the same accepted program) must be well formed (harness/wellformed.py: every structure balanced
 with one correctly sized segment per strand, every strand / super-sequence length = sum of its domains = its
 declared length, every name a unique earlier definition, members of an `equal` line of one length).
 On the well-formed stream the model must agree with the compiler (C01/C02 correspondence); on mutants the
@@ -90,19 +90,19 @@ def all_redefinitions(text):
     return out
 
 
-def compile_dir(d, entry, args, includes):
+def compile_dir(d, entry, args, includes, fmt="pil"):
     from peppercompiler import compiler as pc
     import peppercompiler.utils as utils
     utils.DEBUG = False
     cwd = os.getcwd(); os.chdir(d)
     try:
-        for fn in ("__o.pil", "__o.save"):
+        for fn in ("__o." + fmt, "__o.save"):
             if os.path.exists(fn):
                 os.remove(fn)
         try:
             with quiet():
-                pc.compiler(entry, list(args), "__o.pil", "__o.save", None, True, includes or None)
-            return open("__o.pil").read()
+                pc.compiler(entry, list(args), "__o." + fmt, "__o.save", None, fmt == "pil", includes or None)
+            return open("__o." + fmt).read()
         except BaseException as e:
             if isinstance(e, KeyboardInterrupt): raise
             return None
@@ -122,7 +122,17 @@ def run(st, tier, seed):
     n_ex = 12 if tier == "quick" else len(examples)
     bundles = []
 
-    def judge(text_out, inp, what):
+    def judge(text_out, inp, what, redo=None):
+        if redo is not None:
+            # the compiler has a second back-end: the same (accepted) program compiled to .des must be well formed too
+            des = redo()
+            res.count("des-backend:" + ("accepted" if des is not None else "rejected"))
+            if des is not None:
+                pd = wellformed.check_des(des)
+                if pd:
+                    res.violations.append({"what": "the compiler produced an ill-formed .des specification (%s): %s" % (what, pd[0]), "input": inp,
+                                           "observed": pd[:4], "des": des[:3000], "sig": "C09:illformed-des:" + pd[0].split(" ")[0],
+                                           "cmd": "pepper-compiler --des " + inp["entry"]})
         probs = wellformed.check(text_out)
         if probs:
             res.violations.append({"what": "the compiler produced an ill-formed specification (%s): %s" % (what, probs[0]), "input": inp,
@@ -142,7 +152,7 @@ def run(st, tier, seed):
             res.evaluations += 1
             inp0 = {"files": b.texts, "entry": b.entry, "includes": b.includes}
             if base is not None:
-                judge(base, inp0, "unmutated program")
+                judge(base, inp0, "unmutated program", redo=lambda: compile_dir(d, b.entry, [], b.includes, "des"))
             muts = []
             for k in range(n_mut):
                 rel = rng.choice(sorted(b.texts))
@@ -159,6 +169,7 @@ def run(st, tier, seed):
                 with open(os.path.join(d, rel), "w") as f:
                     f.write(mt)
                 out = compile_dir(d, b.entry, [], b.includes)
+                des_out = compile_dir(d, b.entry, [], b.includes, "des") if out is not None else None
                 with open(os.path.join(d, rel), "w") as f:
                     f.write(b.texts[rel])
                 res.evaluations += 1
@@ -167,7 +178,7 @@ def run(st, tier, seed):
                 if out is not None:
                     res.nontriv(mt)
                     inp = dict(inp0, files=dict(b.texts, **{rel: mt}), mutation=what, mutated_file=rel)
-                    judge(out, inp, what)
+                    judge(out, inp, what, redo=lambda: des_out)
                     if len(res.samples) < 2:
                         res.sample({"mutation": what, "file": rel, "accepted": True})
     # directed: a user name of the reserved form _Anon<k> that clashes with the k-th anonymous region of the process
@@ -199,7 +210,7 @@ def run(st, tier, seed):
             res.count("example")
             inp0 = {"files": {"examples/" + relp: "(repository file)"}, "entry": entry, "args": args, "includes": []}
             if base is not None:
-                judge(base, inp0, "unmutated example")
+                judge(base, inp0, "unmutated example", redo=lambda: compile_dir(work, entry, args, None, "des"))
             for k in range(n_mut // 2):
                 mt, what = mutate(orig, rng)
                 with open(os.path.join(work, os.path.basename(relp)), "w") as f:
